@@ -50,7 +50,7 @@ def cfg(pid, tier):
         S("int", "bool", "octets", "utf8", "bits", "null", "struct2", "choice2", "sliceint", "slicestruct"),
         TagPairs=S((0, 1), (30, 31), (127, 128), (16383, 16384)) if not quick else S((0, 1), (30, 31), (127, 128)),
         Leafs=S("small", "boundary"), Seeds=S(1, 2) if quick else S(1, 2, 3, 4, 5, 6),
-        Strategies=S("none", "all", "rand", "holes", "emptylists") if quick else S("none", "all", "rand", "only", "holes", "emptylists"),
+        Strategies=S("none", "all", "rand", "only", "holes", "emptylists", "defaults"),
         FuzzFirst="{" + ", ".join(str(a) for a in ALPHA) + "}" if pid == "C16" else "{}",
         EmitOneIn=1)
     return c
@@ -74,6 +74,8 @@ def expander(pid, tier, types):
                 for j, prm in enumerate(["tagNum:3", "tagNum:3,explicit", "tagNum:31,explicit", "tagNum:16384,explicit"]):
                     out.append(dict(id="%s.p%d" % (bid, j), mode="prim", type=c["type"], val=v, params=prm, seed=seed0))
         elif mode == "schema":
+            if quick and c["present"] in ("only", "defaults") and (c["leaf"] != "small" or c["seed"] != 1):
+                return []      # quick: each-single-optional-present and members-at-their-DEFAULT once per type
             onlys = [0] if c["present"] != "only" else list(range(0, 12))
             for i, t in enumerate(types):
                 for k in onlys:
@@ -120,12 +122,13 @@ def check(pid, tier, replay=None):
         for i, h in enumerate(hists):
             behs += exp(h, "%s-%d" % (pid, i))
         rnd = random.Random(core.seed())
-        cap = (3000 if tier == "quick" else 60000)
+        cap = (5500 if tier == "quick" else 60000)
         if pid == "C16" and tier == "quick":
             cap = 1500
         if len(behs) > cap:
-            prim = [b for b in behs if b["mode"] in ("prim", "fuzz")]
-            rest = [b for b in behs if b["mode"] not in ("prim", "fuzz")]
+            keep = lambda b: b["mode"] in ("prim", "fuzz") or b.get("present") in ("only", "defaults")   # noqa: E731  systematic cases
+            prim = [b for b in behs if keep(b)]
+            rest = [b for b in behs if not keep(b)]
             rnd.shuffle(rest)
             behs = prim + rest[: max(0, cap - len(prim))]
         behs.append(dict(id="%s-types" % pid, mode="types", type="", params="", seed=0))
